@@ -32,9 +32,29 @@ def make_case(rng, algo):
     objective = "min" if algo in ("dba", "dsatuto", "gdba") and rng.random() < 2 else None
     if algo == "gdba":
         objective = rng.choice(["min", "max"])
+    mixed = rng.random() < 0.3
+    if mixed and not hard:
+        pal = ("ties", "bin")  # many ties: tie-breaking between values of different types
     case = gen.gen_case(rng, min_vars=1, max_vars=5, max_dom=4, palettes=pal, objective=objective,
                         binary_only=binary, var_costs=algo not in ("syncbb", "dba", "gdba"), max_space=600, initial=True,
                         unary=algo not in ("syncbb",))
+    # domains mixing value types (e.g. 'off', 1, 2) for some variables: ties between values of different types
+    if mixed:
+        for v in case["variables"]:
+            if rng.random() < 0.8:
+                pool_ = ["off", "on", "a", 1, 2, 3, 0, 2.5, True]
+                k = len(v["domain"])
+                dom = []
+                for x in rng.sample(pool_, len(pool_)):
+                    if not any(x == y for y in dom):  # 1 == True, keep domain values distinct by equality
+                        dom.append(x)
+                    if len(dom) == k:
+                        break
+                v["domain"] = dom
+                if v["initial"] is not None:
+                    v["initial"] = rng.choice(dom)
+        case["mixed_type_domains"] = True
+        return case
     # float domains for some variables
     if rng.random() < 0.3:
         for v in case["variables"]:
@@ -43,6 +63,34 @@ def make_case(rng, algo):
                 if v["initial"] is not None:
                     v["initial"] = v["initial"] + 0.5
     return case
+
+
+def with_checked_initial_values(case, seed):
+    """Some runs try to define a variable with an initial value outside its domain (incl. falsy ones: 0, '', False,
+    0.0). The definition must be rejected (ValueError); if the library accepts it, the variable keeps that initial
+    value and the run is monitored like any other: the selected value must still be unset or a domain member."""
+    import copy
+    from pydcop.dcop.objects import Domain, Variable
+
+    rr = _r.Random(seed * 31 + 7)
+    if rr.random() > 0.25:
+        return case, 0
+    case = copy.deepcopy(case)
+    rejected = 0
+    for v in case["variables"]:
+        if rr.random() < 0.5:
+            bad = [x for x in (0, "", False, 0.0, -1, "zz", 99, None) if x is not None and not any(x == y for y in v["domain"])]
+            if not bad:
+                continue
+            b = rr.choice(bad)
+            try:
+                Variable(v["name"], Domain("d", "t", list(v["domain"])), b)
+            except ValueError:
+                rejected += 1
+                continue
+            v["initial"] = b  # accepted by the library
+            case["invalid_initial_accepted"] = True
+    return case, rejected
 
 
 def make_params(rng, algo):
@@ -73,6 +121,7 @@ def make_params(rng, algo):
 def run_one(case, algo, params, sched_seed, bias=None, choices=None, budget=1500):
     from pydcop.infrastructure.computations import VariableComputation
 
+    case, rejected = with_checked_initial_values(case, sched_seed)
     dcop = gen.build_dcop(case)
     detsched.seed_algo_rngs(sched_seed)
     pool = detsched.Pool(sched_seed, choices=choices)
@@ -119,7 +168,7 @@ def run_one(case, algo, params, sched_seed, bias=None, choices=None, budget=1500
         VariableComputation.value_selection = orig
     return {"status": status, "exception": pool.errors[0][1] if pool.errors else None, "problems": problems[:5],
             "calls": len(calls), "trace": list(pool.trace), "delivered": pool.delivered, "nvars": len(varcomps),
-            "steps_checked": checked[0],
+            "steps_checked": checked[0], "invalid_initial_rejected": rejected,
             "bias": {"bias": pool.bias, "target": pool.bias_target, "late_until": pool.late_until}}
 
 
@@ -143,6 +192,9 @@ def worker(job):
             R.count("value_selection_calls_checked", res["calls"])
             R.count("current_value_reads_checked", res["steps_checked"])
             R.count("messages_delivered", res["delivered"])
+            R.count("invalid_initial_values_rejected_by_the_library", res.get("invalid_initial_rejected", 0))
+            if case.get("mixed_type_domains"):
+                R.count("runs_with_mixed_type_domains")
             R.bump("value_selection_calls_by_algo", algo, res["calls"])
             R.bump("runs_by_algo", algo)
             if res["exception"]:
